@@ -17,7 +17,9 @@ CONSTANTS MaxWriters, MaxK, Delays,
 \* read pump only after the local CloseDataConnection (k = 0 without, k = 1 with a reason) has returned: it must not be delivered
 \* peerSilent (C13): the peer stops answering (no pong, no FIN): the read deadline (pong wait, 60 s) is the only thing that
 \* notices; idleLong: the control - a peer that answers pings keeps an idle connection alive beyond the pong wait
-Events == {"none", "localClose", "localCloseReason", "localCloseLateRead", "peerClose", "peerEof", "peerBad", "writeFail", "readFail", "peerSilent", "idleLong"}
+\* localCloseStalled (C13): the peer stays connected but reads nothing - the pump's transport write blocks for good; a local
+\* close (k = 1: with a reason, which must wait for that write) still returns and releases everything: the write deadline
+Events == {"none", "localClose", "localCloseReason", "localCloseLateRead", "localCloseStalled", "peerClose", "peerEof", "peerBad", "writeFail", "readFail", "peerSilent", "idleLong"}
 Places == {"start", "idle", "mid", "blockedFull"}
 Rows == { [writers |-> w, msgs |-> m, inbound |-> i, event |-> e, place |-> p, k |-> k, delay |-> d] :
             w \in 1..MaxWriters, m \in 1..2, i \in {0, 2}, e \in Events, p \in Places, k \in 0..MaxK, d \in Delays }
@@ -28,6 +30,7 @@ Valid(r) == /\ (r.event \in {"writeFail", "readFail", "peerClose", "peerBad"}) =
             /\ (r.event \in {"none", "localClose", "peerEof", "peerSilent", "idleLong"}) => (r.k = 0)
             /\ r.event = "localCloseReason" => r.k <= 1
             /\ r.event \in {"peerSilent", "idleLong"} => (Long /\ r.k = 0 /\ r.inbound = 0 /\ r.place = "idle" /\ r.writers = 1 /\ r.msgs = 1)
+            /\ r.event = "localCloseStalled" => (r.k <= 1 /\ r.inbound = 0 /\ r.place = "idle" /\ r.writers = 1 /\ r.msgs = 1)
             /\ r.event = "localCloseLateRead" => (r.k <= 1 /\ r.inbound = 0 /\ r.place = "idle")
             /\ r.event = "peerBad" => (r.k <= 5 /\ r.inbound = 0 /\ r.msgs = 2 /\ r.place \in {"idle", "mid"})
             /\ (r.place = "mid") <=> (r.delay > 0)
